@@ -44,9 +44,11 @@
     a tolerance, exactly inside the exact-dyadic domain);
   * `wh_binary_binary` (no table given: `wh.wh` calls `ndl.ndl`, wh.py:122-131)
     is a call, not a computation — checked by the differential run only;
-  * `method='numpy'` of `wh.wh` and `dict_wh` are not in `whModel` (OpenMP
-    entry points only); they are tied to the same specification by C08's
-    differential run;
+  * `method='numpy'` of `wh.wh` and `dict_wh` ("for all flavours and methods"):
+    their own models (`whNumpyModel`, `dictWhModel`, PyndlModel/WHPy.lean; C08
+    `wh_numpy_eq_openmp`, `dict_wh_eq_openmp`) against `ndl.ndl`, end to end:
+    `wh_numpy_onehot_eq_ndl`, `dict_wh_onehot_eq_ndl` below — on the events both
+    accept (exactly one cue and one outcome after the duplicate policy);
   * continued learning (`weights=` given) is not covered here: all statements
     start from zero weights (C03/C08 treat continuation);
   * `ndl.ndl` with `n_jobs > 1` may count names in another order than
@@ -58,6 +60,7 @@
 -/
 import PyndlProofs.WH
 import PyndlProofs.WHOneHot
+import PyndlProofs.WHPy
 
 namespace Pyndl.C14
 open Pyndl List
@@ -562,5 +565,122 @@ example :
     rwLearn (fun _ => (1 : ℤ)) 1 1 1 (fun _ _ => 0)
       [(⟨["a"], ["o"]⟩ : Event String String), ⟨["b", "c"], ["o"]⟩] "o" "c" = 1 :=
   ⟨by unfold OneHotTable; decide +kernel, by decide +kernel, by decide +kernel⟩
+
+/-! ## the other two methods: `wh.wh(method='numpy')` and `dict_wh` -/
+
+/-- (definitional: lemma, not a property theorem) a single outcome cannot repeat -/
+theorem single_outcomes_nodup (es' : List (Event String String)) (hs : ∀ e ∈ es', IsSingle e) :
+    ∀ e ∈ es', e.outcomes.Nodup := by
+  intro e he
+  obtain ⟨c, o, rfl⟩ := (isSingle_iff e).mp (hs e he)
+  simp
+
+/-- **`wh.wh(method='numpy')` with one-hot tables = `ndl.ndl`** (α = 1,
+    β₁ = β₂ = η, λ = 1), end to end, both read through their labels.
+    Hypotheses of `wh_r2r_onehot_eq_ndl` (at least one event; `hcfg`, `hfit` the
+    limits of the `ndl.ndl` call; the policy accepts the events; both tables
+    one-hot with dimension maps injective on the occurring names, names have
+    rows) with `hs` — every policy-processed event has exactly one cue and one
+    outcome, what the numpy branch accepts (`AssertionError` otherwise; it makes
+    the uniqueness of outcomes automatic) — instead of `hu`.  Composition of C08
+    `wh_numpy_eq_openmp` with `wh_r2r_onehot_eq_ndl`. -/
+theorem wh_numpy_onehot_eq_ndl (cfg : NdlCfg) (eta : R)
+    (ct ot : VecTable R) (σ τ : String → Nat)
+    (es es' : List (Event String String)) (hne : es ≠ [])
+    (hcfg : CfgOK cfg (countNames es).2.length)
+    (hp : applyPolicyAll cfg.policy es = some es') (hs : ∀ e ∈ es', IsSingle e) (hfit : Fits32 es)
+    (hohc : OneHotTable ct σ) (hoho : OneHotTable ot τ)
+    (S T : String → Prop) (hSn : ∀ c, S c → c ∈ ct.names) (hTn : ∀ o, T o → o ∈ ot.names)
+    (hinjc : ∀ a b, S a → S b → σ a = σ b → a = b) (hinjo : ∀ a b, T a → T b → τ a = τ b → a = b)
+    (hS : ∀ e ∈ es, ∀ c ∈ e.cues, S c) (hT : ∀ e ∈ es, ∀ o ∈ e.outcomes, T o) :
+    ∃ w wn, whNumpyModel cfg.policy eta ct ot none es = .ok w ∧
+      ndlCall Generated.pyMagic Generated.pyVersion cfg 1 eta eta 1 none es = .ok (wn, es.length) ∧
+      (∀ o c dlo dlc, T o → S c → dlo ∈ ot.dims → ot.dims.idxOf dlo = τ o →
+        dlc ∈ ct.dims → ct.dims.idxOf dlc = σ c → w.get dlo dlc = wn.get o c) := by
+  obtain ⟨w, wn, h1, h2, h3⟩ := wh_r2r_onehot_eq_ndl cfg eta eta eta 1 ct ot σ τ 1 (by decide) es es' hne hcfg hp hfit
+    hohc hoho S T hSn hTn hinjc hinjo hS hT (single_outcomes_nodup es' hs)
+  obtain ⟨r, g1, g2⟩ := whNumpyModel_eq_whModel cfg.policy eta eta eta 1 ct ot 1 (by decide) es es'
+    (fun e he c hc => hSn c (hS e he c hc)) (fun e he o ho => hTn o (hT e he o ho)) hp hs
+  have : r = w := by rw [h1] at g2; exact (Except.ok.inj g2).symm
+  exact ⟨w, wn, this ▸ g1, h2, h3⟩
+
+/-- **`dict_wh` with one-hot tables = `ndl.ndl`**: as before, with distinct
+    dimension labels (`hnc`, `hno`: they are the keys of the returned dict); the
+    dict read at (label at position `τ o`, label at position `σ c`) equals
+    `ndl.ndl`'s matrix at (o, c).  Composition of C08 `dict_wh_eq_openmp` with
+    `wh_r2r_onehot_eq_ndl`. -/
+theorem dict_wh_onehot_eq_ndl (cfg : NdlCfg) (eta : R)
+    (ct ot : VecTable R) (σ τ : String → Nat) (hnc : ct.dims.Nodup) (hno : ot.dims.Nodup)
+    (es es' : List (Event String String)) (hne : es ≠ [])
+    (hcfg : CfgOK cfg (countNames es).2.length)
+    (hp : applyPolicyAll cfg.policy es = some es') (hs : ∀ e ∈ es', IsSingle e) (hfit : Fits32 es)
+    (hohc : OneHotTable ct σ) (hoho : OneHotTable ot τ)
+    (S T : String → Prop) (hSn : ∀ c, S c → c ∈ ct.names) (hTn : ∀ o, T o → o ∈ ot.names)
+    (hinjc : ∀ a b, S a → S b → σ a = σ b → a = b) (hinjo : ∀ a b, T a → T b → τ a = τ b → a = b)
+    (hS : ∀ e ∈ es, ∀ c ∈ e.cues, S c) (hT : ∀ e ∈ es, ∀ o ∈ e.outcomes, T o) :
+    ∃ D wn, dictWhModel cfg.policy eta ct ot [] es = .ok D ∧
+      ndlCall Generated.pyMagic Generated.pyVersion cfg 1 eta eta 1 none es = .ok (wn, es.length) ∧
+      (∀ o c dlo dlc, T o → S c → dlo ∈ ot.dims → ot.dims.idxOf dlo = τ o →
+        dlc ∈ ct.dims → ct.dims.idxOf dlc = σ c → wdAbs D dlo dlc = wn.get o c) := by
+  obtain ⟨w, wn, h1, h2, h3⟩ := wh_r2r_onehot_eq_ndl cfg eta eta eta 1 ct ot σ τ 1 (by decide) es es' hne hcfg hp hfit
+    hohc hoho S T hSn hTn hinjc hinjo hS hT (single_outcomes_nodup es' hs)
+  obtain ⟨D, r, g1, _, g3, g4, _⟩ := dictWhModel_eq_whModel cfg.policy eta eta eta 1 ct ot hnc hno 1 (by decide)
+    es es' (fun e he c hc => hSn c (hS e he c hc)) (fun e he o ho => hTn o (hT e he o ho)) hp hs
+  have : r = w := by rw [h1] at g3; exact (Except.ok.inj g3).symm
+  refine ⟨D, wn, g1, h2, ?_⟩
+  intro o c dlo dlc hTo hSc a b c' d
+  rw [g4, this]
+  exact h3 o c dlo dlc hTo hSc a b c' d
+
+/-! ### non-vacuity: single events on the one-hot tables above -/
+
+/-- single events after `remove_duplicates=True` (the second has its cue and its
+    outcome twice) -/
+def exSingleEvents : List (Event String String) := [⟨["a"], ["x"]⟩, ⟨["b", "b"], ["y", "y"]⟩, ⟨["a"], ["y"]⟩]
+def exSingleEvents' : List (Event String String) := [⟨["a"], ["x"]⟩, ⟨["b"], ["y"]⟩, ⟨["a"], ["y"]⟩]
+
+/-- `wh_numpy_onehot_eq_ndl` with EVERY hypothesis instantiated (threading, two
+    outcomes per job, η = 2) -/
+example :
+    ∃ w wn, whNumpyModel .dedup (2 : ℤ) exTable exOutTable none exSingleEvents = .ok w ∧
+      ndlCall Generated.pyMagic Generated.pyVersion ⟨.dedup, .threading, 2, 2⟩ (1 : ℤ) 2 2 1 none exSingleEvents
+        = .ok (wn, exSingleEvents.length) ∧
+      (∀ o c dlo dlc, o ∈ exOutTable.names → c ∈ exTable.names → dlo ∈ exOutTable.dims →
+        exOutTable.dims.idxOf dlo = exTau o → dlc ∈ exTable.dims → exTable.dims.idxOf dlc = exSigma c →
+        w.get dlo dlc = wn.get o c) :=
+  wh_numpy_onehot_eq_ndl ⟨.dedup, .threading, 2, 2⟩ 2 exTable exOutTable exSigma exTau
+    exSingleEvents exSingleEvents' (by decide) (by decide +kernel) (by decide +kernel) (by decide +kernel)
+    ⟨by decide +kernel, by decide +kernel, by decide +kernel, by decide +kernel⟩
+    onehot_table_example.1 (by unfold OneHotTable; decide +kernel)
+    (· ∈ exTable.names) (· ∈ exOutTable.names) (fun _ h => h) (fun _ h => h) exSigma_inj exTau_inj
+    (by decide +kernel) (by decide +kernel)
+
+/-- … and `dict_wh_onehot_eq_ndl` (OpenMP `ndl.ndl`, one outcome per job) -/
+example :
+    ∃ D wn, dictWhModel .dedup (2 : ℤ) exTable exOutTable [] exSingleEvents = .ok D ∧
+      ndlCall Generated.pyMagic Generated.pyVersion ⟨.dedup, .openmp, 1, 2⟩ (1 : ℤ) 2 2 1 none exSingleEvents
+        = .ok (wn, exSingleEvents.length) ∧
+      (∀ o c dlo dlc, o ∈ exOutTable.names → c ∈ exTable.names → dlo ∈ exOutTable.dims →
+        exOutTable.dims.idxOf dlo = exTau o → dlc ∈ exTable.dims → exTable.dims.idxOf dlc = exSigma c →
+        wdAbs D dlo dlc = wn.get o c) :=
+  dict_wh_onehot_eq_ndl ⟨.dedup, .openmp, 1, 2⟩ 2 exTable exOutTable exSigma exTau (by decide) (by decide)
+    exSingleEvents exSingleEvents' (by decide) (by decide +kernel) (by decide +kernel) (by decide +kernel)
+    ⟨by decide +kernel, by decide +kernel, by decide +kernel, by decide +kernel⟩
+    onehot_table_example.1 (by unfold OneHotTable; decide +kernel)
+    (· ∈ exTable.names) (· ∈ exOutTable.names) (fun _ h => h) (fun _ h => h) exSigma_inj exTau_inj
+    (by decide +kernel) (by decide +kernel)
+
+/-- the numbers (kernel-evaluated): the dict `dict_wh` returns on the example,
+    read at (`e2` = τ x, `d3` = σ a) and (`e0` = τ y, `d2` = σ b), is what
+    Rescorla–Wagner learns for (x, a) and (y, b); not all zero -/
+example :
+    (match dictWhModel .dedup (2 : ℤ) exTable exOutTable [] exSingleEvents with
+      | .ok D => some (wdAbs D "e2" "d3", wdAbs D "e0" "d2", wdAbs D "e0" "d3")
+      | .error _ => none)
+      = some (rwLearn (fun _ => (1 : ℤ)) 2 2 1 (fun _ _ => 0) exSingleEvents' "x" "a",
+              rwLearn (fun _ => (1 : ℤ)) 2 2 1 (fun _ _ => 0) exSingleEvents' "y" "b",
+              rwLearn (fun _ => (1 : ℤ)) 2 2 1 (fun _ _ => 0) exSingleEvents' "y" "a") ∧
+    rwLearn (fun _ => (1 : ℤ)) 2 2 1 (fun _ _ => 0) exSingleEvents' "y" "a" ≠ 0 :=
+  ⟨by decide +kernel, by decide +kernel⟩
 
 end Pyndl.C14
